@@ -1002,3 +1002,39 @@ package engine
 //@   property C19
 //@   requires vm != nil
 //@   nosafety
+
+//@ func GetChar
+//@   property C19
+//@   requires vm != nil
+//@   nosafety
+//@   bind s, serr = stream#1
+//@   bind r, size, rerr = (*Stream).ReadRune#1
+//@   onk[consumes-exactly-the-rune-delivered] called(r) && s.position == wrap64(old(s.position) + size) && (rerr == nil ==> size >= 1) && (rerr != nil ==> size == 0)
+//@   at-call Unify requires[delivers-the-rune-read] rerr == nil ==> a2 is Atom && (a2 as Atom) == r
+
+//@ func GetByte
+//@   property C19
+//@   requires vm != nil
+//@   nosafety
+//@   bind s, serr = stream#1
+//@   bind b, rerr = (*Stream).ReadByte#1
+//@   onk[consumes-exactly-one-byte] called(b) && (rerr == nil ==> s.position == wrap64(old(s.position) + 1)) && (rerr != nil ==> s.position == old(s.position))
+//@   at-call Unify requires[delivers-the-byte-read] rerr == nil ==> a2 is Integer && (a2 as Integer) == b
+
+//@ extern io.Writer.Write
+//@   pure
+//@   ensures 0 <= n && n <= len(p)
+
+//@ func textWriter.Write
+//@   property C19
+//@   requires t.stream != nil
+//@   modifies t.stream.position
+//@   ensures[position-counts-bytes-written] t.stream.position == wrap64(old(t.stream.position) + result0)
+//@   at-call io.Writer.Write requires[forwards-unchanged-in-one-call] a0 == t.stream.sink && a1 == p
+
+//@ func binaryWriter.Write
+//@   property C19
+//@   requires b.stream != nil
+//@   modifies b.stream.position
+//@   ensures[position-counts-bytes-written] b.stream.position == wrap64(old(b.stream.position) + result0)
+//@   at-call io.Writer.Write requires[forwards-unchanged-in-one-call] a0 == b.stream.sink && a1 == p
